@@ -66,7 +66,10 @@ type Net struct {
 	Fault func(callIdx int, url string, reqs []*Received, normal []map[string]interface{}) *FaultResponse
 	// BeforeRespond, if set, is called (outside the lock) before a response is returned: delays / ordering
 	BeforeRespond func(url string, reqs []*Received)
-	totalCalls    int
+	// Stall, if set, may return a channel: the answer is held back until the channel is closed or the request's
+	// context ends (a service that does not answer; a client that gives up is released like on a real connection)
+	Stall      func(url string, reqs []*Received) <-chan struct{}
+	totalCalls int
 }
 
 type FaultResponse struct {
@@ -256,10 +259,20 @@ func (n *Net) RoundTrip(req *http.Request) (*http.Response, error) {
 	n.Log = append(n.Log, recs...)
 	fault := n.Fault
 	before := n.BeforeRespond
+	stall := n.Stall
 	n.mu.Unlock()
 
 	if before != nil {
 		before(url, recs)
+	}
+	if stall != nil {
+		if ch := stall(url, recs); ch != nil {
+			select {
+			case <-ch:
+			case <-req.Context().Done():
+				return nil, req.Context().Err()
+			}
+		}
 	}
 	if fault != nil {
 		if fr := fault(callIdx, url, recs, resps); fr != nil {
